@@ -64,6 +64,7 @@ Record binding := mkB {
   b_gseen : bool;            (* ... and that declaration textually precedes the binding: name.name in
                                 self.scope.globals at the time of Flow.add_name.  Differs from b_global only for
                                 an import placed before its `global` statement (the one binder CPython accepts there) *)
+  b_scope : nat;             (* identity of the scope object b_own (name.scope, set by Flow.add_name) *)
   b_line : N;                (* name.declared_at *)
   b_col : N
 }.
@@ -163,11 +164,16 @@ Inductive alt := ABind (i : nat)   (* a binding of this file *)
 
 Record read := mkRd {
   rd_id : name;                    (* name.id *)
+  rd_scope : nat;                  (* identity of flow.scope, the scope the read occurs in *)
   rd_row : option (list alt);      (* None: KeyError (E02) or no flow (E42) *)
   rd_qualified : bool;             (* type(sname) is ImportedName and sname.qualified *)
   rd_locals : bool;                (* sname.name == 'locals' and sname.location == (0, 0) *)
-  rd_scope_rows : list alt         (* alternatives of all rows of names_at(location) whose scope is flow.scope *)
+  rd_visible : list (option nat * list alt)
+    (* every value of flow.names_at(location): (its `scope` attribute, the bindings it stands for).
+       A plain name object has the attribute (Some s); a MultiName (name bound on alternative paths) and the
+       RuntimeNames of the builtin scope have none (None): getattr(n, 'scope', None) *)
 }.
+
 
 (* use_name (linter.py:16-21): every alternative of the row is marked *)
 Fixpoint mark (alts : list alt) (u : list nat) : list nat :=
@@ -177,11 +183,19 @@ Fixpoint mark (alts : list alt) (u : list nat) : list nat :=
   | AOther :: r => mark r u
   end.
 
+(* linter.py:63-65   for n in values: if getattr(n, 'scope', None) is flow.scope: use_name(n) *)
+Fixpoint mark_scope (s : nat) (vis : list (option nat * list alt)) (u : list nat) : list nat :=
+  match vis with
+  | [] => u
+  | (Some s', alts) :: r => mark_scope s r (if Nat.eqb s' s then mark alts u else u)
+  | (None, _) :: r => mark_scope s r u
+  end.
+
 Definition step (st : list nat * list name) (r : read) : list nat * list name :=
   match rd_row r with
   | None => st                                                    (* :44-47, :54-56 *)
   | Some alts =>
-      if rd_locals r then (mark (rd_scope_rows r) (fst st), snd st)        (* :62-65 *)
+      if rd_locals r then (mark_scope (rd_scope r) (rd_visible r) (fst st), snd st)   (* :62-65 *)
       else (mark alts (fst st),                                            (* :70 *)
             if rd_qualified r then rd_id r :: snd st else snd st)          (* :67-68 (sname.name = name.id) *)
   end.
